@@ -19,8 +19,8 @@ PROPS = ['C01', 'C02', 'C03', 'C04', 'C06', 'C07', 'C08', 'C09', 'C10', 'C11', '
 # ------------------------------------------------------------------ batches
 def batches(tier):
     if tier == 'thorough':
-        return [('core', 2000, 130), ('resize', 1600, 130), ('close', 1000, 140), ('mixed', 1400, 160), ('order', 600, 0), ('long', 60, 0)]
-    return [('core', 150, 130), ('resize', 130, 130), ('close', 85, 130), ('mixed', 85, 150), ('order', 60, 0), ('long', 6, 0)]
+        return [('core', 2000, 130), ('resize', 1600, 130), ('close', 1000, 140), ('mixed', 1400, 160), ('order', 600, 0), ('long', 60, 0), ('mixed', 300, 420), ('resize', 200, 420)]
+    return [('core', 150, 130), ('resize', 130, 130), ('close', 85, 130), ('mixed', 85, 150), ('order', 60, 0), ('long', 6, 0), ('mixed', 14, 420), ('resize', 10, 420)]
 
 
 class HarnessDied(RuntimeError):
